@@ -195,13 +195,13 @@ type Case struct {
 }
 
 type meter struct {
-	a0, a1 uint64
-	began  bool
-	input  int
-	items  int           // items of a flood (default 1), see perItem
-	stop   chan struct{} // closed when the watchdog gives up on the case
-	notes  []string
-	tags   []string
+	a0, a1           uint64
+	began            bool
+	input            int
+	items            int           // items of a flood (default 1), see perItem
+	stop             chan struct{} // closed when the watchdog gives up on the case
+	notes            []string
+	tags             []string
 	failFP, failWhat string
 	failDetail       string
 }
@@ -222,20 +222,20 @@ func (m *meter) fail(fp, what string) { m.failFP, m.failWhat = fp, what }
 func stackAll(buf []byte) int { return runtime.Stack(buf, true) }
 
 type caseResult struct {
-	Name    string
-	Outcome string
-	Input   int
-	Items   int
-	Alloc   uint64
-	Panic   *panicInfo
-	Stuck   string // non-empty: the case did not finish; the stack of the case goroutine
-	Busy    bool   // with Stuck: the process kept computing
-	CPUus   int64
-	Restore string
+	Name             string
+	Outcome          string
+	Input            int
+	Items            int
+	Alloc            uint64
+	Panic            *panicInfo
+	Stuck            string // non-empty: the case did not finish; the stack of the case goroutine
+	Busy             bool   // with Stuck: the process kept computing
+	CPUus            int64
+	Restore          string
 	FailFP, FailWhat string
 	FailDetail       string
-	Notes   []string
-	Aborted int // the case was cut off after the node had sent this many bytes (far beyond the yardstick)
+	Notes            []string
+	Aborted          int // the case was cut off after the node had sent this many bytes (far beyond the yardstick)
 }
 
 func cpuNow() time.Duration {
@@ -471,14 +471,14 @@ func journal(name string) {
 // worker protocol: one JSON command per line on stdin, one JSON reply per line on stdout
 
 type command struct {
-	Fam      string `json:"fam"`
-	Lo, Hi   int
-	Skip     []int  `json:"skip,omitempty"`
-	Only     string `json:"only,omitempty"` // run the single case with this name (replay / confirmation)
-	WatchS   int    `json:"watch_s"`
-	HardS    int    `json:"hard_s"`
-	Quit     bool   `json:"quit,omitempty"`
-	Verbose  bool   `json:"verbose,omitempty"`
+	Fam     string `json:"fam"`
+	Lo, Hi  int
+	Skip    []int  `json:"skip,omitempty"`
+	Only    string `json:"only,omitempty"` // run the single case with this name (replay / confirmation)
+	WatchS  int    `json:"watch_s"`
+	HardS   int    `json:"hard_s"`
+	Quit    bool   `json:"quit,omitempty"`
+	Verbose bool   `json:"verbose,omitempty"`
 }
 
 type violation struct {
@@ -491,21 +491,21 @@ type violation struct {
 }
 
 type reply struct {
-	Fam        string           `json:"fam"`
+	Fam        string `json:"fam"`
 	Lo, Hi     int
-	Ran        int              `json:"ran"`
-	Next       int              `json:"next"` // first index not run (== Hi unless the worker stopped early)
-	Outcomes   map[string]int   `json:"outcomes"`
-	Violations []violation      `json:"violations,omitempty"`
-	Stuck      *violation       `json:"stuck,omitempty"` // suspected hang: to be confirmed by the parent
-	Notes      []string         `json:"notes,omitempty"`
-	Samples    []interface{}    `json:"samples,omitempty"`
-	CPUms      int64            `json:"cpu_ms"`
-	InputBytes int64            `json:"input_bytes"`
-	MaxAlloc   uint64           `json:"max_alloc"`
-	Restores   map[string]int   `json:"restores,omitempty"`
-	Exit       bool             `json:"exit,omitempty"` // the worker ends after this reply (recycle / stuck)
-	Cases      []caseResult     `json:"cases,omitempty"` // verbose
+	Ran        int            `json:"ran"`
+	Next       int            `json:"next"` // first index not run (== Hi unless the worker stopped early)
+	Outcomes   map[string]int `json:"outcomes"`
+	Violations []violation    `json:"violations,omitempty"`
+	Stuck      *violation     `json:"stuck,omitempty"` // suspected hang: to be confirmed by the parent
+	Notes      []string       `json:"notes,omitempty"`
+	Samples    []interface{}  `json:"samples,omitempty"`
+	CPUms      int64          `json:"cpu_ms"`
+	InputBytes int64          `json:"input_bytes"`
+	MaxAlloc   uint64         `json:"max_alloc"`
+	Restores   map[string]int `json:"restores,omitempty"`
+	Exit       bool           `json:"exit,omitempty"`  // the worker ends after this reply (recycle / stuck)
+	Cases      []caseResult   `json:"cases,omitempty"` // verbose
 }
 
 func stageOf(fam string) string {
